@@ -22,20 +22,22 @@ func (c *char) Attack(target key.TargetID, state info.ActionState) {
 		EnergyGain:   20.0,
 	})
 	if c.info.Eidolon >= 1 {
-		targets := c.engine.AdjacentTo(target)
-		randomIndex := c.engine.Rand().Intn(len(targets))
-		c.engine.Attack(info.Attack{
-			Key:        SkillAdjacent,
-			Source:     c.id,
-			Targets:    []key.TargetID{targets[randomIndex]},
-			DamageType: model.DamageType_THUNDER,
-			AttackType: model.AttackType_PURSUED,
-			BaseDamage: info.DamageMap{
-				model.DamageFormula_BY_ATK: 0.6,
-			},
-			StanceDamage: 30.0,
-			EnergyGain:   0.0,
-		})
+		// the extra hit needs an enemy adjacent to the target
+		if targets := c.engine.AdjacentTo(target); len(targets) > 0 {
+			randomIndex := c.engine.Rand().Intn(len(targets))
+			c.engine.Attack(info.Attack{
+				Key:        SkillAdjacent,
+				Source:     c.id,
+				Targets:    []key.TargetID{targets[randomIndex]},
+				DamageType: model.DamageType_THUNDER,
+				AttackType: model.AttackType_PURSUED,
+				BaseDamage: info.DamageMap{
+					model.DamageFormula_BY_ATK: 0.6,
+				},
+				StanceDamage: 30.0,
+				EnergyGain:   0.0,
+			})
+		}
 	}
 	state.EndAttack()
 }
